@@ -355,6 +355,12 @@ func init() {
 	wxCheck("C08", 90, 900, func(tier string) []runner.Job {
 		batch := fBNew | fBRem | fBExch | fBSet | fQ
 		return []runner.Job{
+			// batch events = events of the single operations (a listener is installed; event failures after a batch call are accepted)
+			job(sc(func() *sim.Cfg {
+				c := sim.RichThreeTargetsCfg("c08-rich-three-targets-events", 1, fBSet|fBExch|fRelX|fBRem|fQ, oBasic|sim.OEvents)
+				c.Listener = true
+				return c.P("C08")
+			}()), pick(tier, 3, 4), 1),
 			job(sc(sim.RelCfg("c08-rel-k4-batch", 0, 4, 0, 8, fBld|batch|fRelX, oBasic).P("C08")), pick(tier, 5, 7), 3),
 			job(sc(sim.RelCfg("c08-rel-k4-2p-batch-move", 0, 4, 2, 2, fBld|fMove|batch, oBasic).P("C08")), pick(tier, 5, 7), 2),
 			job(sc(sim.Rel2Cfg("c08-rel2-k3-batch", 3, 0, 1, fBld|fRel|batch|fRelX, oBasic).P("C08")), pick(tier, 4, 6), 2),
@@ -406,6 +412,7 @@ func init() {
 			return sc(c.P("C11"))
 		}
 		return []runner.Job{
+			job(ev(sim.RichThreeTargetsCfg("c11-rich-three-targets-batch", 1, fBSet|fBExch|fRelX|fBRem|fRet|fQ, 0)), pick(tier, 3, 4), 1),
 			job(ev(sim.Rel2Cfg("c11-rel2-k3-single", 3, 0, 8, fBld|fMove|fRel|fRet|fRelX|fVal, 0)), pick(tier, 5, 7), 3),
 			job(ev(sim.RelCfg("c11-rel-k3-batch", 0, 3, 0, 8, fBld|fMove|fBNew|fBRem|fBExch|fBSet|fRelX|fQ, 0)), pick(tier, 5, 6), 3),
 			job(ev(sim.Rel2Cfg("c11-rel2-k3-batch", 3, 0, 8, fBld|fRel|fBExch|fBSet|fRelX|fQ, 0)), pick(tier, 4, 6), 2),
